@@ -111,7 +111,7 @@ OTHER_CSI = ["\x1b[2K", "\x1b[1A", "\x1b[?25l", "\x1b[10;20H", "\x1b[K", "\x1b[2
 
 def gen_stream(rng):
     w = S.pick_weights(rng)
-    w.pop("zero", None)
+    S.drop_zero(w)
     lines = []
     features = set()
     open_style = False
